@@ -1044,7 +1044,7 @@ static void GenSmall(Rng& rng, bool thorough)
 					return true;
 		return false;
 	};
-	int s1 = 256, s2 = thorough ? 96 : 24, s3 = thorough ? 24 : 12, s4 = 16;
+	int s1 = 256, s2 = thorough ? 96 : 20, s3 = thorough ? 24 : 10, s4 = 16;
 	/* colliding sets are always taken, the others with probability 1/keep */
 	int keep3 = thorough ? 1 : 4, keep4 = 10;
 	std::vector<int> pick;
